@@ -217,3 +217,281 @@ Example r7_nonvacuous :
   skipn 3 (snd (run (init 5 10 2000000) (r7_pre ++ ObsCancel 0 :: r7_post))) = [[]; []; [Send 0 0 1 10 [6] (Some 0)]; []] /\
   (exists c, get_req (fst (run (init 5 10 2000000) (r7_pre ++ [ObsCancel 0]))) 0 = Some c /\ cq_obs_cancelled c = true).
 Proof. vm_compute. repeat split; try reflexivity; eexists; repeat split; reflexivity. Qed.
+
+(* ================================================================== token uniqueness over time along a run
+   Only TokenManager.request emits a Token output and moves the counter; it emits exactly one, the rendering of the successor.
+   Hence the tokens emitted along ANY run of at most 2^64 events from ANY state are pairwise different. *)
+From Verif Require Import Proofs.C02Tok.
+
+Definition nt (o : output) : Prop := match o with Token _ _ => False | _ => True end.
+Definition toks (o : list output) : list token := flat_map (fun x => match x with Token _ t => [t] | _ => [] end) o.
+Lemma toks_app : forall a b, toks (a ++ b) = toks a ++ toks b.
+Proof. intros. unfold toks. apply flat_map_app. Qed.
+Lemma toks_nt : forall o, Forall nt o -> toks o = [].
+Proof. induction o as [|x o IH]; intros H; [reflexivity|]. inversion H; subst. unfold toks in *. cbn [flat_map]. rewrite IH by assumption. destruct x; try reflexivity. contradiction. Qed.
+Lemma toks_in : forall q t o, In (Token q t) o -> In t (toks o).
+Proof. intros q t o H. unfold toks. apply in_flat_map. exists (Token q t). split; [exact H|left; reflexivity]. Qed.
+
+Lemma nt_ml : forall o, Forall ml_out o -> Forall nt o.
+Proof. intros o H. eapply Forall_impl; [|exact H]. intros [] Hx; cbn in Hx; try contradiction; exact I. Qed.
+Lemma nt_add_event : forall s q ev s' o, _add_event s q ev = (s', o) -> Forall nt o.
+Proof. intros s q ev s' o H. apply add_event_out_ok in H. eapply Forall_impl; [|exact H]. intros [] Hx; cbn in Hx; try contradiction; exact I. Qed.
+Lemma nt_run_stoppers : forall e qs s s' o, run_stoppers s qs e = (s', o) -> Forall nt o.
+Proof.
+  intros e. induction qs as [|q rest IH]; intros s s' o H; cbn [run_stoppers] in H; [invpairs; constructor|].
+  destruct (add_exception s q e) as [s1 o1] eqn:E. apply nt_add_event in E.
+  destruct (run_stoppers s1 rest e) as [s2 o2] eqn:R. apply IH in R. invpairs. apply Forall_app; split; assumption.
+Qed.
+Lemma nt_tm_dispatch_error : forall s k r s' o, tm_dispatch_error s k r = (s', o) -> Forall nt o.
+Proof. intros s k r s' o H. unfold tm_dispatch_error in H. destruct (outgoing s); [|invpairs; constructor]. eapply nt_run_stoppers; eauto. Qed.
+Lemma nt_mm_dispatch_error : forall s k r s' o, mm_dispatch_error s k r = (s', o) -> Forall nt o.
+Proof.
+  intros s k r s' o H. unfold mm_dispatch_error in H. destruct (exchanges s); [|invpairs; constructor].
+  destruct (tm_dispatch_error s k r) as [s1 o1] eqn:T. apply nt_tm_dispatch_error in T. invpairs. exact T.
+Qed.
+Lemma nt_send_via_transport : forall s r w s' o, _send_via_transport s r w = (s', o) -> Forall nt o.
+Proof.
+  intros s r w s' o H. unfold _send_via_transport in H. destruct (refuses s r); [eapply nt_mm_dispatch_error; eauto|invpairs; repeat constructor].
+Qed.
+Lemma nt_send_initially : forall s r w m s' o, _send_initially s r w m = (s', o) -> Forall nt o.
+Proof. intros s r w m s' o H. unfold _send_initially in H. eapply nt_send_via_transport; eauto. Qed.
+Lemma nt_continue_loop : forall r fuel s s' o x, _continue_backlog_loop fuel s r = (s', o, x) -> Forall nt o.
+Proof.
+  intros r. induction fuel as [|f IH]; intros s s' o x H; cbn [_continue_backlog_loop] in H; [invpairs; constructor|].
+  destruct (exchanges s); [|invpairs; constructor].
+  destruct (alookup Z.eqb r (backlogs s)) as [bl|]; [|invpairs; constructor].
+  destruct (has_exchange r l); [invpairs; constructor|].
+  destruct bl as [|[w m] rest]; [invpairs; constructor|].
+  destruct (_send_initially _ r w (Some m)) as [s1 o1] eqn:S. apply nt_send_initially in S.
+  destruct (_continue_backlog_loop f s1 r) as [[s2 o2] x2] eqn:L. apply IH in L. invpairs. apply Forall_app; split; assumption.
+Qed.
+Lemma nt_remove_exchange : forall s r w s' o x, _remove_exchange s r w = (s', o, x) -> Forall nt o.
+Proof.
+  intros s r w s' o x H. unfold _remove_exchange in H.
+  destruct (exchanges s); [|invpairs; constructor].
+  destruct (alookup rm_eqb (r, w_mid w) l); [|invpairs; constructor].
+  destruct (if w_mtype w =? RST then _ else _) as [s2 o2] eqn:E.
+  destruct (_continue_backlog s2 r) as [[s3 o3] x3] eqn:C. invpairs.
+  apply Forall_app. split.
+  - destruct (w_mtype w =? RST); [eapply nt_add_event; exact E|invpairs; constructor].
+  - unfold _continue_backlog in C. destruct (alookup Z.eqb r (backlogs s2)); [eapply nt_continue_loop; eauto|invpairs; repeat constructor].
+Qed.
+Lemma nt_process_response : forall s r w b s' o, process_response s r w = (b, s', o) -> Forall nt o.
+Proof.
+  intros s r w b s' o H. unfold process_response in H.
+  destruct (outgoing s); [|invpairs; repeat constructor].
+  destruct (alookup key_eqb _ l); [|invpairs; constructor].
+  destruct (add_response _ z w r _) as [s2 o2] eqn:E. invpairs. eapply nt_add_event; exact E.
+Qed.
+Lemma nt_dispatch_message : forall s r mcl w s' o, dispatch_message s r mcl w = (s', o) -> Forall nt o.
+Proof.
+  intros s r mcl w s' o H. unfold dispatch_message in H.
+  destruct (is_request (w_code w)). { invpairs. repeat constructor. }
+  destruct (if (w_mtype w =? ACK) || (w_mtype w =? RST) then _ else _) as [[s1 o1] x1] eqn:RE.
+  assert (B1 : Forall nt o1).
+  { destruct ((w_mtype w =? ACK) || (w_mtype w =? RST)); [eapply nt_remove_exchange; eauto|invpairs; constructor]. }
+  destruct x1. { invpairs. exact B1. }
+  assert (SI : forall s r w s' o, _send_initially s r w None = (s', o) -> Forall nt o).
+  { intros *. apply nt_send_initially. }
+  destruct ((w_code w =? EMPTY) && (w_mtype w =? CON)).
+  { destruct (_send_initially s1 r _ None) as [s2 o2] eqn:S. apply SI in S. invpairs. apply Forall_app; split; assumption. }
+  destruct ((w_code w =? EMPTY) && ((w_mtype w =? ACK) || (w_mtype w =? RST))). { invpairs. exact B1. }
+  destruct (is_response (w_code w) && _); [|invpairs; exact B1].
+  destruct (process_response s1 r w) as [[b s2] o2] eqn:P. apply nt_process_response in P.
+  destruct b; [destruct (w_mtype w =? CON)|destruct ((w_mtype w =? CON) && negb mcl)];
+    try (destruct (_send_initially s2 r _ None) as [s3 o3] eqn:S; apply SI in S); invpairs;
+    repeat (apply Forall_app; split); assumption.
+Qed.
+Lemma nt_shutdown_loop : forall fuel s s' o, tm_shutdown_loop fuel s = (s', o) -> Forall nt o.
+Proof.
+  induction fuel as [|f IH]; intros s s' o H; cbn [tm_shutdown_loop] in H; [invpairs; constructor|].
+  destruct (outgoing s) as [[|[k q] rest]|]; try (invpairs; constructor).
+  destruct (add_exception _ q LibraryShutdown) as [s1 o1] eqn:E. apply nt_add_event in E.
+  destruct (tm_shutdown_loop f s1) as [s2 o2] eqn:L. apply IH in L. invpairs. apply Forall_app; split; assumption.
+Qed.
+Lemma nt_retransmit : forall s r mid s' o, _retransmit s r mid = (s', o) -> Forall nt o.
+Proof.
+  intros s r mid s' o H. unfold _retransmit in H. destruct (exchanges s); [|invpairs; constructor].
+  destruct (alookup rm_eqb (r, mid) l); [|invpairs; repeat constructor].
+  destruct (ex_counter e <? 4).
+  - eapply nt_send_via_transport; eauto.
+  - destruct (amem Z.eqb r _); [|invpairs; repeat constructor]. eapply nt_tm_dispatch_error; eauto.
+Qed.
+Lemma nt_send_message : forall s r mt tok obs m s' o, send_message s r mt tok obs m = Ok (s', o) -> Forall nt o.
+Proof.
+  intros s r mt tok obs m s' o H. unfold send_message in H.
+  set (mt' := match mt with None => _ | Some _ => _ end) in H. clearbody mt'.
+  destruct ((mt' =? CON) && is_multicast r); [discriminate|]. cbn [_next_message_id] in H.
+  set (s1 := set_next_mid s _) in H. clearbody s1. set (w := {| w_mtype := mt' |}) in H. clearbody w.
+  destruct ((mt' =? CON) && amem Z.eqb r _).
+  - inversion H; subst. constructor.
+  - destruct (_send_initially s1 r w (Some m)) as [s3 o3] eqn:S. inversion H; subst; clear H. eapply nt_send_initially; exact S.
+Qed.
+
+Notation M64 := (2 ^ 64).
+Definition TT : list (key * Z) -> Prop := fun _ => True.
+Lemma TT_ok : forall k og, TT og -> TT (aremove key_eqb k og). Proof. intros; exact I. Qed.
+Definition quiet (s s' : st) (o : list output) : Prop := tmst s' = tmst s /\ toks o = [].
+Definition issued (s s' : st) (o : list output) : Prop :=
+  tm_token (tmst s') = (tm_token (tmst s) + 1) mod M64 /\ toks o = [tokbytes ((tm_token (tmst s) + 1) mod M64)].
+
+Lemma new_request_toks : forall s q r mt obs s' o, new_request s q r mt obs = (s', o) -> quiet s s' o \/ issued s s' o.
+Proof.
+  intros s q r mt obs s' o H. unfold new_request in H. destruct (get_req s q); [invpairs; left; split; reflexivity|].
+  set (c0 := {| cq_remote := r |}) in H. unfold request in H. cbn [outgoing upd_req set_reqs] in H.
+  change (tmst (upd_req s q c0)) with (tmst s) in H.
+  destruct (outgoing s) as [og|].
+  2: { left. split; [apply (keeps_add_event TT TT_ok) in H; destruct H as [K _]; exact K|apply toks_nt; eapply nt_add_event; exact H]. }
+  rewrite next_token_spec in H. right.
+  set (T' := (tm_token (tmst s) + 1) mod M64) in *. set (tok := tokbytes T') in *.
+  set (k := (tok, if is_multicast r then None else Some r)) in *.
+  set (s1 := set_outgoing _ _) in H. assert (T1 : tm_token (tmst s1) = T') by reflexivity. clearbody s1.
+  pose proof (keeps_on_interest_end TT TT_ok s1 q k) as [K2 _].
+  set (s2 := on_interest_end s1 q k) in *. clearbody s2.
+  destruct (send_message s2 r mt tok obs q) as [[s3 o3]|e] eqn:SM.
+  - invpairs. pose proof (keeps_send_message TT TT_ok _ _ _ _ _ _ _ _ SM) as [K3 _]. apply nt_send_message in SM.
+    split; [rewrite K3, K2; exact T1|]. change (Token q tok :: o3) with ([Token q tok] ++ o3). rewrite toks_app, (toks_nt o3 SM). reflexivity.
+  - destruct (add_exception s2 q e) as [s3 o3] eqn:A. invpairs. pose proof (keeps_add_event TT TT_ok _ _ _ _ _ A) as [K3 _]. apply nt_add_event in A.
+    split; [rewrite K3, K2; exact T1|]. change (Token q tok :: o3) with ([Token q tok] ++ o3). rewrite toks_app, (toks_nt o3 A). reflexivity.
+Qed.
+Lemma step_toks : forall s e s' o, step s e = (s', o) -> quiet s s' o \/ issued s s' o.
+Proof.
+  intros s e s' o H. destruct e; cbn [step] in H; [eapply new_request_toks; exact H|left..].
+  - destruct (outgoing s); [|invpairs; split; reflexivity].
+    split; [apply (keeps_dispatch_message TT TT_ok) in H; destruct H as [K _]; exact K|apply toks_nt; eapply nt_dispatch_message; exact H].
+  - destruct (exchanges s); [|invpairs; split; reflexivity]. destruct (next_timer l None) as [[[r mid] e]|]; [|invpairs; split; reflexivity].
+    split; [apply (keeps_retransmit TT TT_ok) in H; destruct H as [K _]; exact K|apply toks_nt; eapply nt_retransmit; exact H].
+  - repeat dmatch; invpairs; split; reflexivity.
+  - split; [apply (keeps_mm_dispatch_error TT TT_ok) in H; destruct H as [K _]; exact K|apply toks_nt; eapply nt_mm_dispatch_error; exact H].
+  - split; [apply (keeps_cancel TT TT_ok) in H; destruct H as [K _]; exact K|].
+    unfold cancel in H. repeat dmatch; invpairs; reflexivity.
+  - invpairs. split; [|reflexivity]. pose proof (keeps_obs_cancel TT s q) as [K _]. exact K.
+  - invpairs. split; reflexivity.
+  - unfold shutdown in H. destruct (outgoing s); [|invpairs; split; reflexivity].
+    destruct (tm_shutdown_loop (length l) s) as [s1 o1] eqn:L. invpairs.
+    split; [apply shutdown_loop_tmst in L; exact L|apply toks_nt; eapply nt_shutdown_loop; exact L].
+Qed.
+
+(* the tokens the next k calls of next_token return when the counter is T *)
+Fixpoint tokseq (T : Z) (k : nat) : list token :=
+  match k with O => [] | S k' => tokbytes ((T + 1) mod M64) :: tokseq ((T + 1) mod M64) k' end.
+Lemma tokseq_in : forall k T x, In x (tokseq T k) -> exists i, 1 <= i <= Z.of_nat k /\ x = tokbytes ((T + i) mod M64).
+Proof.
+  induction k as [|k IH]; intros T x H; cbn [tokseq] in H; [contradiction|]. destruct H as [E|H].
+  - exists 1. split; [lia|]. symmetry. exact E.
+  - apply IH in H. destruct H as (i & Hi & E). exists (i + 1). split; [lia|]. rewrite E. f_equal.
+    rewrite Zplus_mod_idemp_l. f_equal. lia.
+Qed.
+Lemma tokseq_nodup : forall k T, Z.of_nat k <= M64 -> NoDup (tokseq T k).
+Proof.
+  induction k as [|k IH]; intros T Hk; cbn [tokseq]; [constructor|]. constructor; [|apply IH; lia].
+  intros Hin. apply tokseq_in in Hin. destruct Hin as (i & Hi & E). symmetry in E. revert E.
+  apply tokens_distinct_lemma; [apply Z.mod_pos_bound; reflexivity|lia].
+Qed.
+Lemma run_toks : forall es s s' os, run s es = (s', os) ->
+  exists k, (k <= length es)%nat /\ toks (concat os) = tokseq (tm_token (tmst s)) k.
+Proof.
+  induction es as [|e es IH]; intros s s' os H; cbn [run] in H; [invpairs; exists O; split; [lia|reflexivity]|].
+  destruct (step s e) as [s1 o] eqn:S. destruct (run s1 es) as [s2 os2] eqn:R. invpairs. apply IH in R. destruct R as (k & Hk & E).
+  cbn [concat length]. rewrite toks_app, E. apply step_toks in S. destruct S as [[Q1 Q2]|[I1 I2]].
+  - exists k. split; [lia|]. rewrite Q1, Q2. reflexivity.
+  - exists (S k). split; [lia|]. rewrite I1, I2. reflexivity.
+Qed.
+
+(* from EVERY state, along EVERY event list of at most 2^64 events, the tokens handed out (Token outputs, in order) are pairwise different *)
+Theorem run_tokens_unique_lemma : forall s es, Z.of_nat (length es) <= M64 -> NoDup (toks (concat (snd (run s es)))).
+Proof.
+  intros s es Hn. destruct (run s es) as [s' os] eqn:R. apply run_toks in R. destruct R as (k & Hk & E). cbn [snd]. rewrite E.
+  apply tokseq_nodup. lia.
+Qed.
+Lemma nodup_app_disj : forall {A} (a b : list A) x, NoDup (a ++ b) -> In x a -> In x b -> False.
+Proof.
+  intros A. induction a as [|y a IH]; intros b x H Ha Hb; [contradiction|]. cbn [app] in H. inversion H; subst. destruct Ha as [->|Ha].
+  - apply H2. apply in_or_app. right. exact Hb.
+  - eapply IH; eauto.
+Qed.
+(* the same over time: a token handed to a request during es1 is not handed to any request during the continuation es2 *)
+Theorem token_not_reissued_lemma : forall s es1 es2 q1 q2 tok o1 o2, Z.of_nat (length (es1 ++ es2)) <= M64 ->
+  In o1 (snd (run s es1)) -> In (Token q1 tok) o1 ->
+  In o2 (snd (run (fst (run s es1)) es2)) -> In (Token q2 tok) o2 -> False.
+Proof.
+  intros s es1 es2 q1 q2 tok o1 o2 Hn H1 T1 H2 T2. pose proof (run_tokens_unique_lemma s (es1 ++ es2) Hn) as N.
+  rewrite run_app in N. cbn [snd] in N. rewrite concat_app, toks_app in N.
+  eapply (nodup_app_disj _ _ tok N); eapply toks_in; apply in_concat; eexists; split; eassumption.
+Qed.
+(* one step hands out at most one token *)
+Theorem step_one_token_lemma : forall s e, (length (toks (snd (step s e))) <= 1)%nat.
+Proof. intros s e. destruct (step s e) as [s' o] eqn:S. apply step_toks in S. cbn [snd]. destruct S as [[_ ->]|[_ ->]]; cbn; lia. Qed.
+
+Definition r7_tok_script : list event :=
+  [Request 0 0 (Some 0) false; Request 1 0 (Some 1) false; Recv 0 false {| w_mtype := 2; w_code := 69; w_mid := 10; w_token := [6]; w_observe := None; w_rid := 1 |};
+   Request 2 1 (Some 1) true; Shutdown; Request 3 0 (Some 1) false].
+Example r7_tokens_nonvacuous :
+  toks (concat (snd (run (init 5 10 2000000) r7_tok_script))) = [[6]; [7]; [8]] /\
+  toks (concat (snd (run (init (2 ^ 64 - 2) 10 2000000) r7_tok_script))) = [[255; 255; 255; 255; 255; 255; 255; 255]; []; [1]] /\
+  In (Token 0 [6]) (nth 0 (snd (run (init 5 10 2000000) r7_tok_script)) []) /\
+  In (Token 2 [8]) (nth 3 (snd (run (init 5 10 2000000) r7_tok_script)) []).
+Proof. vm_compute. repeat split; try reflexivity; auto. Qed.
+
+(* ================================================================== the tie between the table and the Token outputs:
+   an entry (tok, _) -> q of outgoing_requests is there because `Token q tok` was emitted (or it was there at the start) *)
+Definition sub (X : key * Z -> Prop) : list (key * Z) -> Prop := fun og => forall e, In e og -> X e.
+Lemma sub_ok : forall X k og, sub X og -> sub X (aremove key_eqb k og).
+Proof. intros X k og H e He. apply In_aremove in He. apply H. apply He. Qed.
+Definition from_before (s : st) (e : key * Z) : Prop := exists og, outgoing s = Some og /\ In e og.
+Lemma keeps_before : forall s s', keeps (sub (from_before s)) s s' -> forall og', outgoing s' = Some og' -> sub (from_before s) og'.
+Proof.
+  intros s s' [_ K] og' E. rewrite E in K. destruct (outgoing s) as [og|] eqn:Hog; [|contradiction]. apply K.
+  intros e He. exists og. split; [exact Hog|exact He].
+Qed.
+Ltac by_before L := left; eapply keeps_before; [eapply L; [apply sub_ok|eassumption]|eassumption]; eassumption.
+
+Lemma step_entry_origin : forall s e s' o og' k q, step s e = (s', o) -> outgoing s' = Some og' -> In (k, q) og' ->
+  from_before s (k, q) \/ In (Token q (fst k)) o.
+Proof.
+  intros s e s' o og' k q H E Hin. destruct e; cbn [step] in H.
+  - unfold new_request in H. destruct (get_req s q0); [invpairs; left; exists og'; split; assumption|].
+    set (c0 := {| cq_remote := r |}) in H. unfold request in H. cbn [outgoing upd_req set_reqs] in H.
+    change (tmst (upd_req s q0 c0)) with (tmst s) in H.
+    destruct (outgoing s) as [og|] eqn:Hog.
+    { rewrite next_token_spec in H. set (tok := tokbytes _) in H. set (k0 := (tok, if is_multicast r then None else Some r)) in *.
+      set (s1 := set_outgoing _ _) in H.
+      set (X := fun e : key * Z => e = (k0, q0) \/ In e og).
+      assert (P1 : sub X (aset key_eqb k0 q0 og)). { intros x Hx. apply In_aset in Hx. exact Hx. }
+      assert (O1 : outgoing s1 = Some (aset key_eqb k0 q0 og)) by reflexivity. clearbody s1.
+      assert (K2 : keeps (sub X) s1 (on_interest_end s1 q0 k0)) by (apply keeps_on_interest_end; apply sub_ok).
+      set (s2 := on_interest_end s1 q0 k0) in *. clearbody s2.
+      assert (K3 : exists o3, o = Token q0 tok :: o3 /\ keeps (sub X) s2 s').
+      { destruct (send_message s2 r mtype tok obs q0) as [[s3 o3]|e] eqn:SM.
+        - invpairs. eexists. split; [reflexivity|]. eapply keeps_send_message; [apply sub_ok|exact SM].
+        - destruct (add_exception s2 q0 e) as [s3 o3] eqn:A. invpairs. eexists. split; [reflexivity|]. eapply keeps_add_event; [apply sub_ok|exact A]. }
+      destruct K3 as (o3 & -> & K3). pose proof (keeps_trans (sub X) _ _ _ K2 K3) as [_ K]. rewrite E, O1 in K. specialize (K P1 _ Hin).
+      destruct K as [K|K]; [inversion K; subst; right; left; reflexivity|left; exists og; split; [exact Hog|exact K]]. }
+    left. eapply keeps_before; [|exact E|exact Hin].
+    apply (keeps_add_event (sub (from_before s)) (sub_ok _)) in H. destruct H as [K1 K2]. split; [exact K1|]. cbn [outgoing upd_req set_reqs] in K2. exact K2.
+  - destruct (outgoing s) eqn:Hog; [|invpairs; congruence]. left. eapply keeps_before; [eapply keeps_dispatch_message; [apply sub_ok|exact H]|exact E|exact Hin].
+  - left. destruct (exchanges s); [|invpairs; exists og'; split; assumption].
+    destruct (next_timer l None) as [[[r mid] e]|]; [|invpairs; exists og'; split; assumption].
+    apply (keeps_retransmit (sub (from_before s)) (sub_ok _)) in H. destruct H as [K1 K2]. eapply keeps_before; [split; [exact K1|exact K2]|exact E|exact Hin].
+  - left. exists og'. split; [|exact Hin]. rewrite <- E. repeat dmatch; invpairs; reflexivity.
+  - left. eapply keeps_before; [eapply keeps_mm_dispatch_error; [apply sub_ok|exact H]|exact E|exact Hin].
+  - left. eapply keeps_before; [eapply keeps_cancel; [apply sub_ok|exact H]|exact E|exact Hin].
+  - left. invpairs. eapply keeps_before; [apply keeps_obs_cancel|exact E|exact Hin].
+  - left. invpairs. exists og'. split; assumption.
+  - unfold shutdown in H. destruct (outgoing s) eqn:Hog; [|invpairs; congruence].
+    destruct (tm_shutdown_loop (length l) s) as [s1 o1]. invpairs. cbn in E. discriminate.
+Qed.
+(* along every run from every state: every entry of the final table was in the initial table or its token was handed to that very request *)
+Theorem entry_token_emitted_lemma : forall es s og' k q, outgoing (fst (run s es)) = Some og' -> In (k, q) og' ->
+  (exists og, outgoing s = Some og /\ In (k, q) og) \/ exists o, In o (snd (run s es)) /\ In (Token q (fst k)) o.
+Proof.
+  induction es as [|e es IH]; intros s og' k q E Hin; cbn [run] in *; [left; exists og'; split; assumption|].
+  destruct (step s e) as [s1 o] eqn:S. destruct (run s1 es) as [s2 os] eqn:R. cbn [fst snd] in *.
+  specialize (IH s1 og' k q). rewrite R in IH. cbn [fst snd] in IH. destruct (IH E Hin) as [(og1 & E1 & H1)|(o' & H1 & H2)].
+  - destruct (step_entry_origin _ _ _ _ _ _ _ S E1 H1) as [B|T]; [left; exact B|right; exists o; split; [left; reflexivity|exact T]].
+  - right. exists o'. split; [right; exact H1|exact H2].
+Qed.
+Example r7_entry_nonvacuous :
+  outgoing (fst (run (init 5 10 2000000) [Request 0 0 (Some 0) false; Request 1 0 (Some 1) true])) = Some [(([6], Some 0), 0); (([7], Some 0), 1)] /\
+  snd (run (init 5 10 2000000) [Request 0 0 (Some 0) false; Request 1 0 (Some 1) true]) = [[Token 0 [6]; Send 0 0 1 10 [6] None]; [Token 1 [7]; Send 0 1 1 11 [7] (Some 0)]].
+Proof. vm_compute. split; reflexivity. Qed.
